@@ -107,6 +107,20 @@ def make_history(rng):
                 ops.append(("C", objtree.join(p + ((_comp(rng),) if rng.random() < 0.5 else ()))))
         elif r < 0.85:
             t = _call_target(rng, pool, model)
+            if rng.random() < 0.1:
+                # Destroy(): whoever takes the call unregisters its own registration from inside its handler
+                path = objtree.join(t)
+                d = model.dispatch(path)
+                ops.append(("D", path))
+                if d.taker is not None:
+                    own = [p for p, rec in model.reg.items() if rec.id == d.taker][0]
+                    model.unregister(objtree.join(own))
+                    # look at the tree right away: the node (and now empty ancestors) must be gone
+                    ops.append(("L", objtree.join(own[:-1])))
+                    if len(own) > 1:
+                        ops.append(("L", objtree.join(own[:rng.randint(0, len(own) - 1)])))
+                    ops.append(("C", objtree.join(own)))
+                continue
             ops.append(("C" if rng.random() < 0.9 else "c", objtree.join(t)))
         elif r < 0.93:
             t = _call_target(rng, pool, model)
@@ -152,7 +166,12 @@ def judge(part, ops, res):
         part.violation("%s:%s:%s" % (PROP, cls[0], cls[1]), "harness crashed / hung / sanitizer report",
                        {"script": line, "stderr": c.get("stderr", "")[-3000:]})
         return
-    out = res.get("ops", [])
+    out = []
+    for o in res.get("ops", []):
+        if o.get("op") == "destroyed" and out:
+            out[-1] = dict(out[-1], destroyed_cb=o.get("cb"))      # second result object of a D op
+        else:
+            out.append(o)
     if len(out) != len(ops):
         part.inconclusive.append("harness returned %d results for %d ops" % (len(out), len(ops)))
         return
@@ -219,8 +238,18 @@ def judge(part, ops, res):
             if (want if want is not None else -1) != got:
                 viol("user-data", "get_object_path_data(%s) gave handler %s, expected %s" % (path, got, want), i, want, got)
             part.count("data-compared")
-        elif kind in "Cc":
+        elif kind in "CcD":
             d = model.dispatch(path)
+            if kind == "D":
+                part.count("destroy-calls")
+                want_cb = [d.taker] if d.taker is not None else []
+                if (o.get("destroyed_cb") or []) != want_cb:
+                    viol("unregister-callback:from-inside-handler", "Destroy call to %s: unregister callbacks %s ran, expected %s"
+                         % (path, o.get("destroyed_cb"), want_cb), i, want_cb, o)
+                if d.taker is not None:
+                    own = [pp for pp, rec in model.reg.items() if rec.id == d.taker][0]
+                    model.unregister(objtree.join(own))
+                    part.count("self-unregistrations-from-a-handler")
             exact = model.reg.get(p)
             nfb = len(model.ancestor_fallbacks(path))
             shape = ("call", kind, ("none" if exact is None else ("fb" if exact.fallback else "plain") + ("-declines" if exact.declines else "")),
@@ -350,6 +379,7 @@ def run(tier, seed, replay=None, scale=1.0):
     r.require("call-error:ancestor-of-registered", 200 if full else 1)
     r.require("call-error:below-fallback", 200 if full else 1)
     r.require("call-error:unknown-object", 200 if full else 1)
+    r.require("self-unregistrations-from-a-handler", 100 if full else 1)
     r.require("register-occupied", 200 if full else 1)
     r.require("unregister", 1000 if full else 1)
     r.require("list-compared", 500 if full else 1)
